@@ -401,7 +401,76 @@ def run(ctx):
     validate_all(ctx, items)
 
     selftest(ctx, seqs)
+    stack_level(ctx)
     assumptions(ctx)
+
+
+def stack_level(ctx):
+    """Through the stack: IPv4 fragments of several UDP datagrams that differ in ONE component of the reassembly key
+    (source address incl. neighbouring addresses, destination, identification, protocol) are interleaved fragment by
+    fragment; what the bound UDP sockets return must be exactly the datagrams, each whole, from the right sender
+    (harness/sockd op `fragmix`, trace validated by TLC against spec/sock/TraceSock)."""
+    import vlib as _v
+    sd = ctx.go_build('sockd')
+    rng = ctx.rng
+    NIC = dict(id=1, mtu=1500, addr4=['10.0.0.1', '10.0.0.2'], addr6=['fd00::1'])
+    scs = []
+    srcs = ['10.0.0.9', '10.0.0.8', '10.0.1.9', '10.1.0.9', '11.0.0.9', '10.0.0.137', '10.0.0.10']
+    for i in range(ctx.pick(60, 800)):
+        ndg = rng.choice([2, 2, 3, 4])
+        base = dict(src=rng.choice(srcs), sport=7, dst='10.0.0.1', dport=5000, ipid=rng.randrange(1, 65535))
+        dgs = []
+        for k in range(ndg):
+            d = dict(base)
+            what = rng.choice(['src', 'src', 'ipid', 'dst', 'sport', 'proto'] if k else ['same'])
+            if what == 'src':
+                d['src'] = rng.choice([x for x in srcs if x != base['src']])
+            elif what == 'ipid':
+                d['ipid'] = (base['ipid'] + rng.choice([1, 256, 0x8000])) % 65536 or 1
+            elif what == 'dst':
+                d['dst'] = '10.0.0.2'
+            elif what == 'sport':
+                d['sport'], d['ipid'] = 8 + k, (base['ipid'] + 7 + k) % 65536 or 1   # another flow: different id as real senders do
+            elif what == 'proto':
+                d['proto'], d['ipid'] = 1, base['ipid']                                # same id, other protocol (ICMP payload is never delivered to UDP)
+            d['n'] = rng.choice([9, 24, 41, 64, 100, 333, 1000])
+            d['seed'] = rng.randrange(1 << 24)
+            tot = 8 + d['n']
+            nc = rng.choice([1, 2, 3, 5, 9, 12])
+            cuts = sorted(set(8 * rng.randrange(1, max(2, (tot + 7) // 8)) for _ in range(nc)))
+            d['cuts'] = [c for c in cuts if 0 < c < tot] or [8]
+            dgs.append(d)
+        # no two datagrams of one scenario may have the same key AND overlap in time: make keys pairwise distinct
+        keys = set()
+        ok = True
+        for d in dgs:
+            key = (d['src'], d['dst'], d['ipid'], d.get('proto', 17))
+            ok = ok and key not in keys
+            keys.add(key)
+        if not ok:
+            continue
+        order = [[k, j] for k, d in enumerate(dgs) for j in range(len(d['cuts']) + 1)]
+        rng.shuffle(order)
+        ops = [dict(op='udp', s=0, v=4), dict(op='bind', s=0, addr='', port=5000),
+               dict(op='fragmix', dgrams=dgs, order=order), dict(op='readall'), dict(op='readall')]
+        scs.append(dict(nics=[NIC], ops=ops))
+    sp = os.path.join(ctx.work, 'fragmix-scen.json')
+    tp = os.path.join(ctx.work, 'fragmix-trace.ndjson')
+    _v.write_json(sp, scs)
+    ctx.run([sd, 'run', sp, tp], timeout=3000)
+    segs = _v.split_segments(_v.read_ndjson(tp))
+    if len(segs) != len(scs):
+        raise _v.Inconclusive('sockd produced %d segments for %d fragmix scenarios' % (len(segs), len(scs)))
+    tc = cfg(spec='TSpec', constraint='HWMark', postcondition='Accepted')
+    acc, rej = _v.validate_segments(ctx, 'TraceSock', tc, ['sock'], segs, name='fragmix', timeout=3000)
+    ctx.traces += acc
+    ctx.extra['stack_level_interleaved_scenarios'] = len(scs)
+    ctx.extra['stack_level_datagrams_returned'] = sum(len(e.get('got', [])) for s_ in segs for e in s_ if e.get('op') == 'readall')
+    ctx.sample(dict(kind='stack-level-interleaving', dgrams=[{k: v for k, v in d.items() if k != 'seed'} for d in scs[0]['ops'][2]['dgrams']], order=scs[0]['ops'][2]['order'][:12]))
+    for si, ln in rej:
+        ev = segs[si][ln] if ln < len(segs[si]) else {}
+        ctx.violation('IPv4 reassembly through the stack: datagrams with different keys interleaved; socket results rejected by the P-spec at event %d (%s)' % (ln, ev.get('op')),
+                      dict(kind='fragmix', scenario=scs[si], events=[{k: v for k, v in e.items() if k != 'raw'} for e in segs[si][:ln + 1]]))
 
 
 def assumptions(ctx):
